@@ -114,3 +114,17 @@ Lemma load_from_source_bounded_tie :
                        && outcome_eqb (gen_load atts true) (ref_load atts true)) all_cases = true
   /\ List.length all_cases = 156%nat.
 Proof. vm_compute. split; reflexivity. Qed.
+
+(* the shape around the interpreted tie (slice patterns and the like are outside the interpreter):
+   the closure, the initial error, ONE loop over T::EXTENSIONS, then default_value -- whatever the
+   length of the extension list, nothing returns before the loop or skips default_value *)
+Definition load_from_source_shape (f : fn_def) : bool :=
+  match fn_body f with
+  | [ELetS (PIdent "load_with_ext" None) (Some (EClosure [PIdent _ None] _)) None;
+     ELetS (PIdent "error" None) (Some (EPath ["ErrorKind"; "NoDefaultValue"])) None;
+     EFor (PIdent e None) (EPath ["T"; "EXTENSIONS"]) [EMatch (ECall (EPath ["load_with_ext"]) [EPath [e']]) [_; _]];
+     ECall (EPath ["T"; "default_value"]) [EPath ["id"]; EMethod (EPath ["error"]) "into" []]] => String.eqb e e'
+  | _ => false
+  end.
+Lemma load_from_source_has_one_path : load_from_source_shape Gen.Asset.load_from_source = true.
+Proof. vm_compute. reflexivity. Qed.
